@@ -7,7 +7,10 @@ LEAN_MODULE = "BluetoeModel.AttWriteQueue"
 LEAN_DIRS = ["BluetoeModel/AttWriteQueue", "BluetoeModel/Cccd", "Driver/AttWriteQueue"]
 DRIVER = "drv_attwq"
 HARNESS_DESC = "harness/attwq.cpp (real bluetoe::server<shared_write_queue<S>, ...>, 3 connections)"
-HARNESS = dict(src="harness/attwq.cpp")
+# -g0: the debug information of these template heavy servers triples the compile time; the crash
+# classification only needs the sanitizer's error kind
+HARNESS = dict(src="harness/attwq.cpp",
+               flags=["-O0", "-g0", "-fsanitize=address,undefined", "-fno-sanitize-recover=all", "-fno-omit-frame-pointer", "-w"])
 
 
 # ------------------------------------------------------------------------------------------------
